@@ -35,33 +35,40 @@ IsPrefixOfTrace(l, h) == LET t == OnionTrace(apps, reqs[k].req, h, early) IN Len
 
 
 \* ------------------------------------------------------------------ steps, one per event of the real loop
-ReadStart == /\ phase \in {"idle", "read"} /\ phase' = "reading"
+\* (guards are named so that the trace spec can tell an unexplained event from an explained one without branching)
+CanReadStart == phase \in {"idle", "read"}
+ReadStart == /\ CanReadStart /\ phase' = "reading"
              /\ UNCHANGED <<k, apps, reqs, early, log, status, closing, answered>>
-ReadDone(n) == /\ phase = "reading" /\ n > 0 /\ phase' = "read"
+CanReadDone(n) == phase = "reading" /\ n > 0
+ReadDone(n) == /\ CanReadDone(n) /\ phase' = "read"
                /\ UNCHANGED <<k, apps, reqs, early, log, status, closing, answered>>
 \* the session loop saw Ok(Some): request k+1 is parsed; `close` is what it read from the Connection header
-Parsed(close) == /\ phase = "read" /\ k < Len(reqs)
+CanParsed(close) == /\ phase = "read" /\ k < Len(reqs)
+                    /\ close = reqs[k + 1].close                    \* the header of THIS request, not of an earlier one
+                    /\ ~closing
+Parsed(close) == /\ CanParsed(close)
                  /\ k' = k + 1 /\ phase' = "parsed" /\ log' = <<>> /\ closing' = close
-                 /\ close = reqs[k + 1].close                       \* the header of THIS request, not of an earlier one
-                 /\ ~closing
                  /\ UNCHANGED <<apps, reqs, early, status, answered>>
 \* fang / handler events extend the log; it must stay a prefix of an onion trace of this request
-FangEvent(e) == /\ phase = "parsed" /\ log' = Append(log, e)
-                /\ \E h \in HandlerIds0 : IsPrefixOfTrace(Append(log, e), h)
+CanFangEvent(e) == phase = "parsed" /\ \E h \in HandlerIds0 : IsPrefixOfTrace(Append(log, e), h)
+FangEvent(e) == /\ CanFangEvent(e) /\ log' = Append(log, e)
                 /\ UNCHANGED <<phase, k, apps, reqs, early, status, closing, answered>>
 \* Router::handle returned
-Handled(st) == /\ phase = "parsed" /\ phase' = "handled" /\ status' = st
-               /\ \E h \in HandlerIds0 : log = OnionTrace(apps, reqs[k].req, h, early)      \* the onion is complete
+CanHandled(st) == phase = "parsed" /\ \E h \in HandlerIds0 : log = OnionTrace(apps, reqs[k].req, h, early)      \* the onion is complete
+Handled(st) == /\ CanHandled(st) /\ phase' = "handled" /\ status' = st
                /\ UNCHANGED <<k, apps, reqs, early, log, closing, answered>>
 \* Response::send finished
-Sent == /\ phase = "handled" /\ answered' = Append(answered, [k |-> k, status |-> status])
+CanSent == phase = "handled"
+Sent == /\ CanSent /\ answered' = Append(answered, [k |-> k, status |-> status])
         /\ phase' = IF closing THEN "closed" ELSE "idle"
         /\ UNCHANGED <<k, apps, reqs, early, log, status, closing>>
 \* Request::read refused the bytes: an error response is sent and the loop goes on
-Rejected(st) == /\ phase = "read" /\ st >= 400 /\ phase' = "handled" /\ status' = st /\ k' = k + 1 /\ log' = <<>> /\ closing' = FALSE
+CanRejected(st) == phase = "read" /\ st >= 400
+Rejected(st) == /\ CanRejected(st) /\ phase' = "handled" /\ status' = st /\ k' = k + 1 /\ log' = <<>> /\ closing' = FALSE
                 /\ UNCHANGED <<apps, reqs, early, answered>>
 \* the peer closed / reset: the loop is left
-Close == /\ phase \in {"reading", "read"} /\ phase' = "closed"
+CanClose == phase \in {"reading", "read"}
+Close == /\ CanClose /\ phase' = "closed"
          /\ UNCHANGED <<k, apps, reqs, early, log, status, closing, answered>>
 
 \* ------------------------------------------------------------------ invariants of the composition
@@ -77,4 +84,5 @@ DispatchInv == (phase = "handled" /\ (status < 400 \/ log # <<>>)) =>
 \* ... and nothing is read after a request that asked to close
 NoReadAfterClose == phase = "closed" /\ closing => k = Len(answered)
 SInv == InOrder /\ DispatchInv /\ NoReadAfterClose
+BrokenInv == IF ~InOrder THEN "InOrder" ELSE IF ~DispatchInv THEN "DispatchInv" ELSE IF ~NoReadAfterClose THEN "NoReadAfterClose" ELSE ""
 =============================================================================
